@@ -28,3 +28,17 @@ Example project_hypotheses :
   (seqsum Rops (map2 Rmult [0; 2] (expw [0; 0])) / W) * (seqsum Rops (map2 Rmult [0; 2] (expw [0; 0])) / W)
   < seqsum Rops (map2 Rmult (map (fun x => x * x) [0; 2]) (expw [0; 0])) / W.
 Proof. cbn. unfold seqsum. cbn. rewrite exp_0. lra. Qed.
+
+(* ----- quantile / cdf inverse pair (Quantile.v): the hypotheses are satisfiable and the side conditions non-empty ----- *)
+From PAFC17 Require Import Quantile.
+(* erf := identity, erfinv := identity satisfy `erf (erfinv y) = y`: the Section hypothesis is consistent *)
+Example erf_hypothesis_satisfiable : forall y : R, -1 < y < 1 -> (fun z : R => z) ((fun z : R => z) y) = y.
+Proof. intros y _. reflexivity. Qed.
+(* a uniform stack [phi; shift 1 2] and a log-uniform-like stack [shift 1 3; log10] admit every base quantile *)
+Example inv_ok_uniform (erf : R -> R) (y : R) : inv_ok erf [TPhi; TShift 1 2] y.
+Proof. cbn. repeat split; lra. Qed.
+Example inv_ok_loguniform (erf : R -> R) (y : R) : inv_ok erf [TPhi; TShift 1 3; TLog10] y.
+Proof. cbn. repeat split; lra. Qed.
+(* u = 1/4: both sound argument expressions agree, the mirrored one does not *)
+Example arg_code_quarter : arg_code (1 / 4) = 2 * (1 / 4) - 1 /\ arg_simplified (1 / 4) = 2 * (1 / 4) - 1 /\ arg_mirrored (1 / 4) <> 2 * (1 / 4) - 1.
+Proof. unfold arg_code, arg_simplified, arg_mirrored. repeat split; lra. Qed.
